@@ -904,6 +904,15 @@ def run_schmidt_gap(case):
     dims, sysa = case["dims"], case["sysa"]
     n = len(dims)
     x, meta = make_state(case["state"], dims)
+    if case["t"].get("useed") is not None and case["t"]["useed"] % 8 == 0:
+        # one case in eight: a trivial (size-1) subsystem is inserted and chosen as A: rho_A = [[1]], gap 1 - 0
+        pos = case["t"]["useed"] // 8 % (n + 1)
+        d1 = dims[:pos] + [1] + dims[pos:]
+        try:
+            g1 = real_scalar(qu.schmidt_gap(to_q(x), tuple(d1), pos), "schmidt_gap")
+        except IndexError:
+            raise Violation("trivial-subsystem-crash", fn="schmidt_gap", size_a=1)
+        close(g1, 1.0, 1e-8, "trivial-subsystem", fn="schmidt_gap")
     p = np.sort(o_schmidt(x, dims, sysa) ** 2)[::-1]
     ref = float(p[0] - (p[1] if p.size > 1 else 0.0))
     got = real_scalar(qu.schmidt_gap(to_q(x, real=case["state"]["real"]), tuple(dims), arg_sys(sysa, case["as_int"])), "schmidt_gap")
@@ -1216,7 +1225,7 @@ def s_observable(draw, tier):
     D = draw(st.sampled_from([2, 3, 4, 5, 6, 8, 12, 16]))
     base = draw(st.sampled_from(SPECTRA))
     return {"D": D, "vals": [base[i % len(base)] for i in range(D)], "oseed": draw(A.seeds), "real": draw(st.booleans()),
-            "pick": draw(st.integers(0, 15)), "form": draw(st.sampled_from(["op", "eigh-tuple"])),
+            "pick": draw(st.integers(0, 15)), "form": draw(st.sampled_from(["op", "op", "eigh-tuple", "eigh-ndarray", "eigh-list"])),
             "autoblock": draw(st.booleans()), "state": draw(s_state(D)), "support": draw(st.integers(1, 16)),
             "fixed": draw(st.booleans()), "mseed": draw(A.seeds)}
 
@@ -1229,6 +1238,24 @@ def build_observable(case):
     return (U * vals) @ U.conj().T, U, vals
 
 
+def diag_arg(qu, qA, Aop, form):
+    """the documented pre-diagonalised input: (eigenvalues, eigenvectors) from quimb's eigh, or from numpy's
+    (plain ndarrays), as a tuple or a list."""
+    if form == "eigh-tuple":
+        return qu.eigh(qA)
+    el, ev = np.linalg.eigh(Aop)
+    return (el, ev) if form == "eigh-ndarray" else [el, ev]
+
+
+def ndarray_guard(form, fn, call):
+    try:
+        return call()
+    except AttributeError as ex:
+        if form in ("eigh-ndarray", "eigh-list") and "'H'" in str(ex):
+            raise Violation("tuple-ndarray-crash", fn=fn, form="ndarray-eigenvectors")
+        raise
+
+
 def run_projector(case):
     qu = Q()
     Aop, U, vals = build_observable(case)
@@ -1239,7 +1266,8 @@ def run_projector(case):
     if case["form"] == "op":
         P = qu.projector(qA, eigenvalue=lam, autoblock=case["autoblock"])
     else:
-        P = qu.projector(qu.eigh(qA), eigenvalue=lam)
+        arg = diag_arg(qu, qA, Aop, case["form"])
+        P = ndarray_guard(case["form"], "projector", lambda: qu.projector(arg, eigenvalue=lam))
     e = close(np.asarray(P), ref, EXACT64, "definition", fn="projector", form=case["form"], deg=int(sel.sum()))
     P = np.asarray(P)
     e = max(e, close(P @ P, P, EXACT64, "idempotent", fn="projector"))
@@ -1275,11 +1303,18 @@ def run_measure(case):
         P = U[:, sel] @ U[:, sel].conj().T
         probs[lam] = (float(np.real(np.trace(P @ rho))), P)
     qA = qu.qu(Aop)
-    arg = qA if case["form"] == "op" else qu.eigh(qA)
+    arg = qA if case["form"] == "op" else diag_arg(qu, qA, Aop, case["form"])
+    if case["form"] in ("eigh-ndarray", "eigh-list"):
+        ndarray_guard(case["form"], "measure", lambda: qu.measure(to_q(x), arg, eigenvalue=float(vals[0])))
     if case["fixed"]:
         cands = [l for l, (p, _) in probs.items() if p > 1e-3]
         lam = cands[case["pick"] % len(cands)]
         res, after = qu.measure(to_q(x), arg, eigenvalue=lam)
+        if x.ndim == 1:
+            # the same state handed over as a density operator must collapse to the projector of the same ket
+            res_d, after_d = qu.measure(to_q(rho), arg, eigenvalue=lam)
+            want_d = probs[lam][1] @ rho @ probs[lam][1] / probs[lam][0]
+            close(np.asarray(after_d), want_d, INV64, "ket-vs-operator", fn="measure", pure=True)
     else:
         np.random.seed(case["mseed"] % (2 ** 32))
         try:
@@ -1307,8 +1342,10 @@ def run_measure(case):
         else:
             want = P @ x @ P / p
             e = close(after, want, INV64, "post-state", fn="measure", pure=False)
+    cplx = (not case["real"]) and np.iscomplexobj(x) and float(np.max(np.abs(np.imag(rho)))) > 1e-6
     return {"nt": k < D or len(probs) < D, "cls": ["pure" if x.ndim == 1 else "mixed", "fixed" if case["fixed"] else "random", "form=" + case["form"],
-                                               "restricted" if k < D else "full-support"], "err": e}
+                                               "restricted" if k < D else "full-support"]
+            + (["complex-observable+complex-" + ("ket" if x.ndim == 1 else "operator")] if cplx else []), "err": e}
 
 
 # ---------------------------------------------------------------------------
@@ -1365,6 +1402,11 @@ def run_counts(case):
     res2 = qu.simulate_counts(to_q(x), case["C"], **kw)
     if res2 != res:
         raise Violation("seed-not-deterministic", fn="simulate_counts", phys_dim=pd)
+    if x.ndim == 1:
+        # the same state as a density operator has the same Born distribution => the same seeded sample
+        res3 = qu.simulate_counts(to_q(o_dop(x)), case["C"], **kw)
+        if res3 != res:
+            raise Violation("ket-vs-operator", fn="simulate_counts", phys_dim=pd)
     return {"nt": len(supp) < D and n >= 2, "cls": ["pd=%d" % pd, "pure" if case["pure"] else "mixed", "n=%d" % n], "err": 0.0}
 
 
@@ -1877,18 +1919,20 @@ def run_lazy(case):
 # ---------------------------------------------------------------------------
 
 SPARSE_FNS = ("ptr", "mutinf:ket", "entropy_subsys", "schmidt_gap", "tr_sqrt_subsys", "mutinf_subsys", "logneg_subsys", "logneg:ket",
-              "fidelity:ket-rho", "fidelity:ket-sprho", "trace_distance:sp-dense", "correlation", "pauli_decomp", "concurrence")
+              "fidelity:ket-rho", "fidelity:ket-sprho", "trace_distance:sp-dense", "correlation", "pauli_decomp", "concurrence", "owci")
 
 
 @st.composite
 def s_sparse(draw, tier):
     fn = draw(st.sampled_from(SPARSE_FNS))
-    qubits = fn in ("pauli_decomp", "concurrence")
+    qubits = fn in ("pauli_decomp", "concurrence", "owci")
     dims = draw(s_dims(2, 4 if fn == "pauli_decomp" else 5, maxD=16 if fn == "pauli_decomp" else 64, choices=(2,) if qubits else CHOICES))
     n = len(dims)
     sysa, sysb = draw(s_subsets(n, 2))
     ketfn = fn in ("mutinf:ket", "entropy_subsys", "schmidt_gap", "tr_sqrt_subsys", "mutinf_subsys", "logneg_subsys", "logneg:ket") or fn.startswith("fidelity")
-    pure = True if ketfn else (False if fn in ("trace_distance:sp-dense", "pauli_decomp") else draw(st.booleans()))
+    pure = True if ketfn else (False if fn in ("trace_distance:sp-dense", "pauli_decomp", "owci") else draw(st.booleans()))
+    if fn == "owci":
+        dims = [2, 2]
     D = int(np.prod(dims))
     return {"fn": fn, "dims": dims, "sysa": sysa, "sysb": sysb, "state": draw(s_state(D, pure=pure)), "state2": draw(s_state(D, pure=False)),
             "oseed": draw(A.seeds), "zero_frac": draw(st.sampled_from([0.0, 0.0, 0.5])), "stype": draw(st.sampled_from(["csr", "csr", "csc", "coo", "bsr"]))}
@@ -1982,6 +2026,21 @@ def run_sparse(case):
             f = lambda p: qu.concurrence(p, tdims, sa, sb)
             ref = o_concurrence(o_rdm(x, dims, [sa, sb]))
         tol = SQRT64
+    elif fn == "owci":
+        # (1 x P) rho is a NON-hermitian sparse operator going through the sparse partial trace (which mirrors the
+        # upper triangle): its partial trace over B is hermitian, so sparse and dense must still agree
+        U = runitary(np.random.default_rng(case["oseed"]), 2)
+        els = [np.outer(U[:, k], U[:, k].conj()) for k in range(2)]
+        prjs = [qu.qu(E) for E in els]
+        f = lambda p: qu.one_way_classical_information(p, prjs)
+        r4 = x.reshape(2, 2, 2, 2)
+        ref = o_entropy(np.einsum("abcb->ac", r4))
+        for E in els:
+            M = np.einsum("be,aecb->ac", E, r4)
+            pj = float(np.real(np.trace(M)))
+            if pj < 1e-9:
+                raise Reject("zero-probability outcome")
+            ref -= pj * o_entropy(M / pj)
     elif fn == "pauli_decomp":
         rd = qu.pauli_decomp(xd, mode="c")
         rs = qu.pauli_decomp(xs, mode="c")
@@ -2058,5 +2117,5 @@ SUBCHECKS = [
     SubCheck("lazy_linop", run_lazy, s_lazy, examples=(150, 3000), shards=(1, 4),
              rule="lazy_ptr_linop / lazy_ptr_ppt_linop (to_dense, matvec, matmat) vs reduced state / its partial transpose, spectrum and entries; nt: entangled n>=3"),
     SubCheck("sparse", run_sparse, s_sparse, examples=(250, 4000), shards=(1, 4),
-             rule="14 entry points evaluated on sparse kets / operators vs the same call on the dense object and vs the oracle; nt: non-product n>=3"),
+             rule="15 entry points evaluated on sparse kets / operators vs the same call on the dense object and vs the oracle; nt: non-product n>=3"),
 ]
